@@ -56,23 +56,24 @@ type c17Flow struct {
 }
 
 type c17World struct {
-	c        *core.Ctx
-	cfg      string
-	root     string
-	m        *samlsp.Middleware
-	other    *samlsp.Middleware
-	jar      *browser.Jar
-	flows    []*c17Flow
-	now      time.Time
-	o        *so.Oracle
-	hist     []string
-	rsCount  int
-	lastDel  *c17Delivery
-	sessUser string // user of the session currently in the main jar ("" none)
-	sessAt   time.Time
-	reached  bool
-	dead     bool
-	unsol    []*c17Flow
+	shapeSeed int
+	c         *core.Ctx
+	cfg       string
+	root      string
+	m         *samlsp.Middleware
+	other     *samlsp.Middleware
+	jar       *browser.Jar
+	flows     []*c17Flow
+	now       time.Time
+	o         *so.Oracle
+	hist      []string
+	rsCount   int
+	lastDel   *c17Delivery
+	sessUser  string // user of the session currently in the main jar ("" none)
+	sessAt    time.Time
+	reached   bool
+	dead      bool
+	unsol     []*c17Flow
 }
 
 type c17Delivery struct {
@@ -85,7 +86,7 @@ type c17Delivery struct {
 }
 
 func c17NewWorld(c *core.Ctx, https bool, post bool, customRS bool, key string) *c17World {
-	w := &c17World{c: c, jar: browser.NewJar(), now: fx.Epoch.Add(time.Duration(c.Rng.Intn(10000)) * time.Second), o: so.New(c.Rng)}
+	w := &c17World{c: c, jar: browser.NewJar(), now: fx.Epoch.Add(time.Duration(c.Rng.Intn(10000)) * time.Second), o: so.New(c.Rng), shapeSeed: c.Rng.Intn(7)}
 	w.root = "http://sp.example.com"
 	if https {
 		w.root = "https://sp.example.com"
@@ -150,7 +151,10 @@ func (w *c17World) protectedHandler() (http.Handler, *c16Seen) {
 // start a flow: unauthenticated GET of a protected page.
 func (w *c17World) start() {
 	k := len(w.flows)
-	fl := &c17Flow{k: k, url: fmt.Sprintf("/page%d?flow=%d&x=a%%20b", k, k), startedAt: w.now}
+	// the URL the browser asked for, in several spellings whose decoded path means something else (a second slash, a
+	// question mark, a fragment sign inside the path): it has to come back exactly as asked
+	shapes := []string{"/page%d?flow=%d&x=a%%20b", "/page%d?flow=%d&x=a%%20b", "/%%2Fevil.example/p%d?flow=%d", "/a%%3Fb/p%d?flow=%d", "/p%d%%23frag?flow=%d&u=https%%3A%%2F%%2Fevil.example%%2F", "/d%d/..%%2Fx;param?flow=%d", "/only-path-%d-%d"}
+	fl := &c17Flow{k: k, url: fmt.Sprintf(shapes[w.urlShape(k)], k, k), startedAt: w.now}
 	fx.SetNow(w.now)
 	u := mustURL(w.root + fl.url)
 	req := httptest.NewRequest("GET", fl.url, nil)
@@ -725,4 +729,9 @@ func runC17(c *core.Ctx) {
 		}
 		finish(w)
 	}
+}
+
+// urlShape picks the spelling of flow k's URL (fixed per world so that histories stay reproducible).
+func (w *c17World) urlShape(k int) int {
+	return (w.shapeSeed + 3*k) % 7
 }
